@@ -23,6 +23,13 @@ def cases_for(rng, tier):
     for _ in range(n):
         cases.append({"sb": rng.choice([0, 2, 3]),
                       "ops": histgen.gen_mixed(rng, nops=rng.choice([20, 40, 80]), sessions=rng.choice([2, 3, 4, 6]), fail_rate=0.08)})
+    # several live handles on one object inside a reopened session (OpenDataset called again for the same path)
+    for _ in range(500 if tier == "quick" else 12000):
+        cases.append({"sb": rng.choice([0, 2, 3]),
+                      "ops": histgen.gen_mixed(rng, nops=rng.choice([30, 60]), sessions=rng.choice([2, 3]), fail_rate=0.04,
+                                               handles=rng.choice([0.1, 0.25]), resize=False, links=False)})
+    for _ in range(400 if tier == "quick" else 10000):
+        cases.append({"sb": rng.choice([0, 2, 3]), "ops": histgen.gen_handles(rng, nsess=rng.choice([1, 2, 3]), nops=rng.choice([10, 24, 40]))})
     for _ in range(150 if tier == "quick" else 3000):
         cases.append({"sb": rng.choice([0, 2, 3]), "ops": noop_case(rng), "noop": True})
     return cases
@@ -32,7 +39,7 @@ def run(ctx):
     cases = cases_for(ctx.rng, ctx.tier)
     res = histcheck.run(ctx, cases, "C10", tags=None, unit_modules=["c04unit"],
                         rule_extra="C10 cases: 2-6 open-modify-close sessions (attribute upserts/deletes through OpenDataset, data overwrite of "
-                                   "contiguous datasets, creation attempts) with a dump after every session; plus sessions without any successful "
+                                   "contiguous datasets, creation attempts; in part of the cases several OpenDataset handles on the same dataset used in turn) with a dump after every session; plus sessions without any successful "
                                    "modification, for which the file's SHA-256 must not change.")
     # byte identity of no-op sessions
     import vlib, histcheck as hc
